@@ -443,6 +443,9 @@ def _private_generators(env, cfg):
         objs.append(IntervalSage(model, names, loss))
     env.claim('no_unseeded_private_generator', all(seed is not None for seed, _ in PRIVATE), detail=str(PRIVATE))
     env.claim('no_other_entropy_source_touched', ent.n == 0, detail=str(ent.used))
+    reseeds = [c for c in list(py.calls) + list(np_.calls) if c[0] == 'seed']
+    env.claim('constructors_do_not_reseed_the_global_generators', not reseeds,
+              detail=f"random.seed / numpy.random.seed called by library constructors with {[c[1] for c in reseeds]}")
     from symx import core
     shared = getattr(core.PATH_RESET_HOOKS[0], 'functions', []) if core.PATH_RESET_HOOKS else []
     env.claim('no_mutable_object_shared_through_default_arguments', not shared,
@@ -472,6 +475,27 @@ def _tree_seed(env, cfg):
                   detail=f"TreeStorage() builds river learners with seed={seeds}: river then uses random.Random(None), i.e. OS entropy")
         ts2 = TreeStorage(cat_feature_names=['c1', 'c2'], num_feature_names=['a'], seed=5)
         env.claim('explicit_seed_forwarded', all(getattr(m, 'seed', None) == 5 for m in ts2._storage_x.values()))
+        env.claim('construction_leaves_the_global_generators_reproducible', _states_after_construction() == _states_after_construction(),
+                  detail='after seeding both global generators identically and constructing TreeStorage(), TreeImputer and the '
+                         'other library objects, the states of random / numpy.random differ between two runs: a constructor '
+                         're-seeded a global generator from entropy')
+
+
+def _states_after_construction():
+    """state of both global generators after building one object of every storage / imputer class from identical seeds"""
+    from ixai.storage.tree_storage import TreeStorage
+    from ixai.imputer import TreeImputer
+    _real_random.seed(23)
+    _real_np.random.seed(23)
+    ts = TreeStorage(cat_feature_names=['c1'], num_feature_names=['a'])
+    TreeStorage(cat_feature_names=['c1'], num_feature_names=['a'], seed=None)
+    model = lambda x: {'output': 0.0}         # noqa: E731
+    TreeImputer(model, ts)
+    for o in (BatchStorage(), IntervalStorage(size=3), SequenceStorage(), UniformReservoirStorage(), GeometricReservoirStorage(size=3)):
+        MarginalImputer(model, 'joint', o)
+    DefaultImputer(model, {'a': 0})
+    st = _real_np.random.get_state()
+    return (_real_random.getstate(), (st[0], st[1].tolist(), st[2], st[3], st[4]))
 
 
 def _tree_run(seed_kw):
@@ -494,6 +518,7 @@ def _tree_run(seed_kw):
 
 def _tree_seed_replay(env):
     """two real replays of a 1000-point drifting stream with both global generators seeded identically"""
+    env.claim('construction_leaves_the_global_generators_reproducible', _states_after_construction() == _states_after_construction())
     a, b = _tree_run({}), _tree_run({})
     env.claim('tree_learners_not_entropy_seeded_by_default', a == b,
               detail='two identically seeded replays of TreeStorage() (default seed) ended with different leaf reservoirs')
